@@ -27,6 +27,10 @@ type Delivery struct {
 	EOFWithData bool `json:"eof_with_data,omitempty"`
 	// ErrAt >= 0 injects ErrMedium as soon as a Read or ReadAt touches that offset.
 	ErrAt int64 `json:"err_at"`
+	// StartPos is the Read position the source has when it is handed over (a caller that has
+	// already read from it, e.g. to sniff the version). Meant for APIs that take an io.ReaderAt,
+	// whose ReadAt neither depends on nor moves that position.
+	StartPos int64 `json:"start_pos,omitempty"`
 }
 
 // Profiles of capability: which optional interfaces the handed-out value has.
@@ -210,6 +214,9 @@ func (s SrcA) ReadAt(p []byte, o int64) (int, error) { return s.C.readAt(p, o) }
 // NewSource builds a source with the given capability profile.
 func NewSource(data []byte, profile string, del Delivery) (any, *SrcCore) {
 	c := &SrcCore{Data: data, Del: del}
+	if del.StartPos > 0 {
+		c.pos = min(del.StartPos, int64(len(data)))
+	}
 	switch profile {
 	case ProfR:
 		return SrcR{c}, c
